@@ -330,8 +330,10 @@ func (nfc *NfcSession) ReadFile(fileId uint16) (fileData []byte, err error) {
 			return nil, fmt.Errorf("[ReadFile] TLV length exceeds permitted maximum (len:%1d, max:%1d)", tmpTlvLength, nfc.readFileMaxTlvLength)
 		}
 
+		// NB the chip may return fewer than the 4 requested bytes, so derive the header size from
+		//    the bytes actually consumed by the tag/length parse
 		totalBytes = int(tmpTlvLength)
-		totalBytes += 4 - tmpBuf.Len()
+		totalBytes += len(fileHeader) - tmpBuf.Len()
 	}
 
 	// read remainder of file
